@@ -170,6 +170,52 @@ def verdict1(ck, inputs):
     return cases
 
 
+def spec_consistency(ck, cases, rnd):
+    """(M) Both specifications over the same definitions must give the same verdict - also on deliberately broken
+    schedules (levels merged, an operation moved into the previous level, two outputs of one level aliased).  This is
+    a check of the SPECIFICATION (machinery failure if it does not hold), and the vacuity guard of ReadsValid/RaceFree."""
+    import copy
+    small = [x for x in cases if x is not None and 2 <= len(x['levels']) and sched.max_level_width(x) <= 4 and len(x['ops']) <= 14][:12]
+    broken, kinds = [], []
+    for x in small:
+        lv = x['levels']
+        i = rnd.randrange(len(lv) - 1)
+        y = copy.deepcopy(x)
+        y['levels'] = lv[:i] + [[lv[i][0], lv[i + 1][1]]] + lv[i + 2:]
+        broken.append(y); kinds.append('merged')
+        y = copy.deepcopy(x)
+        y['levels'][i][1] += 1
+        y['levels'][i + 1][0] += 1
+        if y['levels'][i + 1][0] < y['levels'][i + 1][1]:
+            broken.append(y); kinds.append('moved')
+        wide = [l for l in lv if l[1] - l[0] >= 2]
+        if wide:
+            l = rnd.choice(wide)
+            o1, o2 = x['ops'][l[0]][0], x['ops'][l[0] + 1][0]
+            if o1 != o2 and o1 < len(x['st']['lines']) and o2 < len(x['st']['lines']):
+                y = copy.deepcopy(x)
+                y['loc'][o2] = y['loc'][o1]
+                y['cap'][o2] = y['cap'][o1]
+                broken.append(y); kinds.append('aliased')
+    if not broken:
+        raise MachineryError('no small schedule to break')
+    res = {}
+    for cfg in ('Schedule_level', 'Schedule_inter'):
+        r = ck.tlc_batch('Schedule', cfg, traces=broken, label='M:broken:' + cfg, per_shard=6, timeout=1500)
+        ck.require_clean(r)
+        res[cfg] = {f[1] for f in r.fails if f[3] in ('ReadsValid', 'RaceFree')}
+    if res['Schedule_level'] != res['Schedule_inter']:
+        raise MachineryError('the two Schedule specifications disagree on broken schedules: level-wise %s, interleaving %s' % (
+            sorted(res['Schedule_level']), sorted(res['Schedule_inter'])))
+    flagged = res['Schedule_level']
+    for k in ('merged', 'aliased'):
+        idx = [i + 1 for i, kk in enumerate(kinds) if kk == k]
+        if idx and not (set(idx) & flagged):
+            raise MachineryError('broken schedules of kind %s are not rejected by the specification' % k)
+    ck.count('broken-schedules-rejected-by-both-specs', len(flagged))
+    ck.count('broken-schedules', len(broken))
+
+
 def verdict2(ck, inputs, cases, rnd, n_orders):
     sub = [i for i, x in enumerate(cases) if x is not None and sched.max_level_width(x) <= 60][:ck.pick(160, 1200)]
     tcases = []
@@ -228,6 +274,7 @@ def main(tier=None, replay=None):
         return ck.finish('replay')
     inputs = make_inputs(ck, rnd, ck.pick(70, 450))
     cases = verdict1(ck, inputs)
+    spec_consistency(ck, cases, rnd)
     verdict2(ck, inputs, cases, rnd, ck.pick(500, 4000))
     ck.need_cover(['schedules-all-interleavings', 'replayed-orders:logic', 'replayed-orders:wave', 'replayed-orders:cuda'])
     ck.assumptions += ['a mock-GPU thread runs to completion (MockCuda semantics); threads of different lanes touch disjoint columns',
